@@ -100,6 +100,14 @@ func astHash(t *plush.Template) uint64 {
 	return h.Sum64()
 }
 
+// c13Loose: a violation of determinism need not recur identically when the case is re-executed
+// (the code under test carries hidden state); re-executions are compared by kind only.
+func c13Loose(kind, format string, a ...interface{}) *engine.Fail {
+	f := engine.Failf(kind, format, a...)
+	f.Loose = true
+	return f
+}
+
 // programs ---------------------------------------------------------------------
 
 type c13Env struct{ log []string }
@@ -347,11 +355,11 @@ func c13RunHistory(hist []c13Op, warm bool) *engine.Fail {
 			plush.CacheSet(c13Templates[o.j], long[o.j])
 		}
 		if got != nil && *got != c13Ref[o.j][o.d] {
-			return engine.Failf("nondeterministic", "step %d %s: result %+v differs from the pristine result %+v", step, o, *got, c13Ref[o.j][o.d])
+			return c13Loose("nondeterministic", "step %d %s: result %+v differs from the pristine result %+v", step, o, *got, c13Ref[o.j][o.d])
 		}
 		for t, h := range hashes {
 			if astHash(t) != h {
-				return engine.Failf("program-mutated", "step %d %s: the parsed program of template %q changed", step, o, t.Input)
+				return c13Loose("program-mutated", "step %d %s: the parsed program of template %q changed", step, o, t.Input)
 			}
 		}
 		for j, src := range c13Templates {
@@ -413,7 +421,7 @@ func c13Run(t *engine.T, shard string) {
 						perr := err.Error()
 						same := func(what string, e error, out string) *engine.Fail {
 							if errStr(e) != perr || out != "" {
-								return engine.Failf("nondeterministic", "%s of a template that does not parse: %q / %s, first parse said %q", what, out, errStr(e), perr)
+								return c13Loose("nondeterministic", "%s of a template that does not parse: %q / %s, first parse said %q", what, out, errStr(e), perr)
 							}
 							return nil
 						}
@@ -448,10 +456,10 @@ func c13Run(t *engine.T, shard string) {
 					h0 := astHash(tm)
 					check := func(what string, r c13Result, tt *plush.Template) *engine.Fail {
 						if r != ref {
-							return engine.Failf("nondeterministic", "%s: %+v differs from the fresh result %+v", what, r, ref)
+							return c13Loose("nondeterministic", "%s: %+v differs from the fresh result %+v", what, r, ref)
 						}
 						if tt != nil && astHash(tt) != h0 {
-							return engine.Failf("program-mutated", "%s: the parsed program changed during execution", what)
+							return c13Loose("program-mutated", "%s: the parsed program changed during execution", what)
 						}
 						return nil
 					}
@@ -479,7 +487,7 @@ func c13Run(t *engine.T, shard string) {
 							return "", f
 						}
 						if ct != nil && astHash(ct) != h0 {
-							return "", engine.Failf("program-mutated", "%s: cached program differs from a fresh parse (step %d)", what, i)
+							return "", c13Loose("program-mutated", "%s: cached program differs from a fresh parse (step %d)", what, i)
 						}
 					}
 					plush.CacheEnabled = false
@@ -514,7 +522,7 @@ func c13Run(t *engine.T, shard string) {
 			t.Case(fmt.Sprintf("env baseline (map-iteration calls=%d) %q", n, src), n > 0, func() (string, *engine.Fail) {
 				r, n2 := run(nil)
 				if r != base || n2 != n {
-					return "", engine.Failf("nondeterministic", "two default-order runs differ: %+v/%d vs %+v/%d", base, n, r, n2)
+					return "", c13Loose("nondeterministic", "two default-order runs differ: %+v/%d vs %+v/%d", base, n, r, n2)
 				}
 				return fmt.Sprintf("choice-points-%d", min(n, 9)), nil
 			})
@@ -529,7 +537,7 @@ func c13Run(t *engine.T, shard string) {
 						script[i] = a
 						r, _ := run(script)
 						if r != base {
-							return "", engine.Failf("order-dependent", "map iteration call %d answered %d: %+v, default order: %+v", i, a, r, base)
+							return "", c13Loose("order-dependent", "map iteration call %d answered %d: %+v, default order: %+v", i, a, r, base)
 						}
 						return "order-independent", nil
 					})
@@ -542,7 +550,7 @@ func c13Run(t *engine.T, shard string) {
 									script[i], script[i2] = a, a2
 									r, _ := run(script)
 									if r != base {
-										return "", engine.Failf("order-dependent", "map iteration calls %d,%d answered %d,%d: %+v, default order: %+v", i, i2, a, a2, r, base)
+										return "", c13Loose("order-dependent", "map iteration calls %d,%d answered %d,%d: %+v, default order: %+v", i, i2, a, a2, r, base)
 									}
 									return "order-independent", nil
 								})
